@@ -148,6 +148,7 @@ struct World {
 	int                 tr_primary;
 	bool                tr_mix;
 	bool                ws_ok;
+	bool                uses_ws; // some endpoint of this run is ws://
 	uint64_t            slack, conn_delay, lat_max;
 	bool                accept_faults;
 	bool                spinner; // some dialer has reconnect time <= 1 ms (it never sleeps)
@@ -412,6 +413,7 @@ connect_hook(const void *sa, unsigned salen, uint64_t now)
 }
 
 static bool c_applicable(World *w, DRec *d);
+static uint64_t attempt_fail_extra(World *w, DRec *d);
 
 // ------------------------------------------------------ pipe callbacks ---
 static void
@@ -535,7 +537,7 @@ pipe_cb(nng_pipe p, nng_pipe_ev ev, void *arg)
 				// the listener is there: the redial has to produce a pipe
 				if (c_applicable(w, d)) {
 					ob_void(w, d, "C");
-					ob_add(w, 'C', d, 2 * w->conn_delay + 40 * w->lat_max);
+					ob_add(w, 'C', d, 2 * w->conn_delay + 40 * w->lat_max + attempt_fail_extra(w, d));
 				}
 			}
 		}
@@ -606,6 +608,8 @@ new_addr(World *w, bool dead, int tr)
 	ARec a;
 	a.idx   = (int) w->addrs.size();
 	a.tr    = tr;
+	if (tr == TR_WS)
+		w->uses_ws = true;
 	int n   = 10 + w->next_addr++;
 	a.url   = h_url(tr, n);
 	a.key   = key_of_url(tr, n);
@@ -685,7 +689,7 @@ addr_now_up(World *w, int addr)
 		if (!c_applicable(w, d))
 			continue;
 		ob_void(w, d, "C");
-		ob_add(w, 'C', d, 2 * w->conn_delay + 40 * w->lat_max);
+		ob_add(w, 'C', d, 2 * w->conn_delay + 40 * w->lat_max + attempt_fail_extra(w, d));
 	}
 }
 
@@ -738,6 +742,23 @@ do_listen(World *w, SRec *s, int addr)
 	return l;
 }
 
+// Extra time for "the attempt that was under way fails": an attempt that got as
+// far as the handshake with a listener that is being closed is ended by the
+// listener side closing the connection.  nng does that (like every deferred
+// close) on its single reap thread, and tearing down one ws pipe keeps that
+// thread for 100 ms and more (websocket close handshake), so with ws pipes in
+// the run the connection may stay open and silent for an unbounded time; the
+// dialing side then gives up only when its own handshake timer fires (ws: 2 s
+// for the HTTP upgrade, stream transports: 10 s for the SP header).  The
+// statement bounds the delay after the failure, not the time to fail.
+static uint64_t
+attempt_fail_extra(World *w, DRec *d)
+{
+	if (!w->uses_ws)
+		return 0;
+	return w->addrs[(size_t) d->addr].tr == TR_WS ? 2 * SEC + 100 * MS : 10 * SEC + 100 * MS;
+}
+
 // The listener at addr has just been closed (the call returned).  Whatever a
 // background dialer had going on with it - a connection in the accept queue,
 // a half finished handshake, an established pipe - is torn down by that, so
@@ -759,7 +780,7 @@ addr_now_down(World *w, int addr)
 		if (d->live_pipe != 0)
 			continue;
 		ob_void(w, d, "D");
-		ob_add(w, 'D', d, 2 * w->conn_delay + 40 * w->lat_max);
+		ob_add(w, 'D', d, 2 * w->conn_delay + 40 * w->lat_max + attempt_fail_extra(w, d));
 	}
 }
 
@@ -804,7 +825,7 @@ dialer_try_start(World *w, DRec *d, bool nonblock)
 		// inproc shows no connect(): the only observable is the pipe
 		if (c_applicable(w, d) && d->live_pipe == 0) {
 			ob_void(w, d, "C");
-			ob_add(w, 'C', d, 2 * w->conn_delay + 40 * w->lat_max);
+			ob_add(w, 'C', d, 2 * w->conn_delay + 40 * w->lat_max + attempt_fail_extra(w, d));
 		}
 		return;
 	}
@@ -1309,6 +1330,7 @@ events_run(Params *p)
 	w->next_addr     = 0;
 	w->raw_tid       = -1;
 	w->snipe_addr    = -1;
+	w->uses_ws       = false;
 	w->snipe_flag    = 0;
 	w->harness_tids.insert(sim_self());
 	g_echo = p->i("c14_echo", 0) != 0;
